@@ -352,6 +352,9 @@ func runHistory(c *Ctx, caseIdx int, rng *rand.Rand, o *HistOpts) *HistRun {
 		// structural stake invariants (C11) on the observed state
 		hr.checkStakeInvariants(obs, h)
 		m.Hist[h] = obs
+		if m.Ref != nil {
+			m.Ref.Snapshot(h)
+		}
 		// validator updates (C10)
 		if err := sim.ApplyUpdates(h, res.End.ValidatorUpdates); err != nil {
 			if strings.Contains(err.Error(), "empty set") {
